@@ -5,8 +5,8 @@
    Gram diagonal, <x,y>_w = sum_i w_i x_i conj(y_i) ([cinner]).  [eval e] is the
    action of the operator expression [e], [adjoint e] the expression the
    library returns as [e.adjoint].  The carrier is R (conj = id) or C = R*R. *)
-From Coq Require Import Reals List Bool.
-From Verif Require Import Base.Num Base.Vec C13.Syntax Gen.FiniteDiff C05.Model C05.Alg C05.Inst C05.Proofs.
+From Coq Require Import Reals Lra List Bool.
+From Verif Require Import Base.Num Base.Vec C13.Syntax Gen.FiniteDiff C13.Model C05.Model C05.Alg C05.Inst C05.Proofs.
 Import ListNotations.
 
 (* T1 (all trees, any depth and width): if the expression is well-formed (spaces of
@@ -34,6 +34,20 @@ Theorem expr_adjoint_sound_complex : forall e : oexpr (R * R), wf leaf_ok e ->
   dom (adjoint e) = ran e /\ ran (adjoint e) = dom e.
 Proof. exact (expr_adjoint_sound_flat cring_ok_C). Qed.
 Print Assumptions expr_adjoint_sound_complex.
+
+(* T1 (A.adjoint.adjoint acts like A, all trees): whenever the expression and the expression
+   returned as its adjoint are both well-formed with good leaves, and the weights are real
+   and invertible, the double adjoint evaluates like the operator itself (uniqueness of the
+   adjoint in a non-degenerate inner product). *)
+Theorem double_adjoint_real : forall e : oexpr R, wf leaf_ok e -> wf leaf_ok (adjoint e) ->
+  vconj (dom e) = dom e -> vconj (ran e) = ran e -> invertible (ran e) ->
+  forall x, length x = length (dom e) -> eval (adjoint (adjoint e)) x = eval e x.
+Proof. exact (double_adjoint_all cring_ok_R). Qed.
+Theorem double_adjoint_complex : forall e : oexpr (R * R), wf leaf_ok e -> wf leaf_ok (adjoint e) ->
+  vconj (dom e) = dom e -> vconj (ran e) = ran e -> invertible (ran e) ->
+  forall x, length x = length (dom e) -> eval (adjoint (adjoint e)) x = eval e x.
+Proof. exact (double_adjoint_all cring_ok_C). Qed.
+Print Assumptions double_adjoint_complex.
 
 (* ------------------------------------------------------------------------
    Built-in pairs.  Stated once for every carrier T that is a commutative ring
@@ -106,11 +120,34 @@ Proof. exact (leaf_ok_flatten OK). Qed.
 Theorem flattening_inverse_adjoint_partial : forall (cv : T) (n : nat) (perm : list nat),
   Forall (fun i => (i < n)%nat) perm -> nconj cv = cv -> leaf_ok (LUnflatten (repeat cv n) perm cv).
 Proof. exact (leaf_ok_unflatten OK). Qed.
+(* ComponentProjection(Adjoint).  FULL STATEMENT (false): for all product weights pw.
+   _partial: when the weight of the projected component is 1 (any other weights, any component spaces). *)
+Theorem component_projection_adjoint_partial : forall (ws : list (list T)) (pw : list T) (i : nat),
+  (i < length ws)%nat -> length pw = length ws -> nth i pw nzero = none_ -> leaf_ok (LProj ws pw i).
+Proof. exact (leaf_ok_proj OK). Qed.
+Theorem component_projection_adjoint_adjoint_partial : forall (ws : list (list T)) (pw : list T) (i : nat),
+  (i < length ws)%nat -> length pw = length ws -> nth i pw nzero = none_ ->
+  vconj (pweights pw ws) = pweights pw ws -> vconj (nth i ws []) = nth i ws [] -> leaf_ok (LProjAdj ws pw i).
+Proof. exact (leaf_ok_projadj OK). Qed.
 End Builtins.
 Print Assumptions scaling_adjoint.
 Print Assumptions matrix_adjoint_partial.
 Print Assumptions sampling_adjoint_partial.
 Print Assumptions flattening_adjoint_partial.
+Print Assumptions component_projection_adjoint_partial.
+
+(* PartialDerivative on a 1-d discretisation: the operator named by the regenerated
+   _ADJ_METHOD/_ADJ_PADDING tables, negated, IS the adjoint for all 30 (method, padding)
+   pairs, every length n >= 2 on which both are defined, every cell side dx <> 0 -- when
+   all weights are equal (uniform_discr without nodes_on_bdry).  Reuses C13.fd_adjoint.
+   FULL STATEMENT (false, partial_derivative_nodes_on_bdry_refuted): for all weights. *)
+Theorem partial_derivative_adjoint_partial : forall (c dx : R) (n : nat) (m : meth) (p : pmode),
+  dx <> 0%R -> (2 <= n)%nat ->
+  bnd_in_range n (boundary_tab p m) = true ->
+  bnd_in_range n (boundary_tab (adj_padding p) (adj_method m)) = true ->
+  leaf_ok (LPDeriv (repeat c n) (repeat c n) [n] 0 m p dx).
+Proof. exact leaf_ok_pderiv_1d. Qed.
+Print Assumptions partial_derivative_adjoint_partial.
 
 (* ------------------------------------------------------------------------
    The full statement is FALSE of the faithful model on non-uniformly weighted
@@ -131,3 +168,37 @@ Proof. exact proj_weighted_refuted. Qed.
 Theorem partial_derivative_nodes_on_bdry_refuted :
   identity_fails (LPDeriv [1/4; 1/2; 1/4] [1/4; 1/2; 1/4] [3%nat] 0 Forward PConstant (1/2)).
 Proof. exact pderiv_bdry_refuted. Qed.
+
+(* ------------------------------------------------------------------------
+   Non-vacuity: a concrete complex tree (scalar multiples on both sides, vector
+   multiple, sum, composition, broadcast) satisfies the premises of
+   expr_adjoint_sound_complex and of double_adjoint_complex. *)
+Definition c1 : R * R := (1, 0). Definition ci : R * R := (0, 1). Definition c2i : R * R := (2, -1).
+Definition ex_tree : oexpr (R * R) :=
+  Bcast [ Sum (LScal c2i (Leaf (LMatrix [c1; c1] [c1; c1] [[c1; ci]; [c2i; c1]])))
+              (Comp (Leaf (LScaling [c1; c1] ci)) (RVec (Leaf (LMultiply [c1; c1] [ci; c2i])) [c1; ci]));
+          RScal (Leaf (LZero [c1; c1] [c1])) c2i ].
+Example ex_tree_premises :
+  wf leaf_ok ex_tree /\ wf leaf_ok (adjoint ex_tree) /\
+  vconj (dom ex_tree) = dom ex_tree /\ vconj (ran ex_tree) = ran ex_tree /\ invertible (ran ex_tree).
+Proof.
+  assert (HM : forall M : list (list (R * R)), rect 2 M -> length M = 2%nat -> leaf_ok (LMatrix [c1; c1] [c1; c1] M))
+    by (intros M H1 H2; exact (leaf_ok_matrix_const cring_ok_C c1 2 2 M H1 H2)).
+  assert (Hc1 : nconj c1 = c1) by (unfold c1; cbn; f_equal; lra).
+  split; [|split; [|split; [|split]]].
+  - cbn [ex_tree wf]. repeat match goal with |- _ /\ _ => split end; try reflexivity; try discriminate; try exact I.
+    + apply HM; [repeat constructor | reflexivity].
+    + apply (leaf_ok_scaling cring_ok_C).
+    + apply (leaf_ok_multiply cring_ok_C); reflexivity.
+    + apply (leaf_ok_zero cring_ok_C).
+    + repeat constructor.
+  - cbn [ex_tree adjoint map mk_lscal leaf_adjoint wf]. repeat match goal with |- _ /\ _ => split end; try reflexivity; try discriminate; try exact I.
+    + apply HM; [cbn; repeat constructor | reflexivity].
+    + apply (leaf_ok_multiply cring_ok_C); reflexivity.
+    + apply (leaf_ok_scaling cring_ok_C).
+    + apply (leaf_ok_zero cring_ok_C).
+    + repeat constructor.
+  - change (dom ex_tree) with [c1; c1]. unfold vconj; cbn [map]. rewrite Hc1. reflexivity.
+  - change (ran ex_tree) with [c1; c1; c1]. unfold vconj; cbn [map]. rewrite Hc1. reflexivity.
+  - change (ran ex_tree) with [c1; c1; c1]. repeat constructor; exists c1; cbn; unfold cx_mul; cbn; f_equal; lra.
+Qed.
